@@ -94,7 +94,7 @@ def case_st(draw, shapes):
     sc = draw(scen.scenario_st(shapes, measure="none",
                                weight_kinds=("none", "int", "dyadic")))
     sc["query"]["extras"] = draw(filter_block_st())
-    tx, inforce = draw(xforms.slice_insertions_st(sc, where="transforms", max_ins=2,
+    tx, inforce = draw(xforms.slice_insertions_st(sc, where="either", max_ins=2,
                                                   allow_malformed=False))
     sc["transforms"] = tx
     sc["insertions"] = inforce
